@@ -189,6 +189,13 @@ def run_case(case):
                             pv = want[-2] if L >= 2 else None
                             if not same(ind.prev_reading(), pv):
                                 V("default-position", f"C20|Indicator.prev_reading()|{cls}", f"prev_reading() {short(ind.prev_reading(), 100)} != reading(-2) {short(pv, 100)}")
+                    if f is not None:
+                        # dotted names: present exactly when that FIELD's latest value is not None (the dict around it may well exist)
+                        stats["has_reading_checks"] = stats.get("has_reading_checks", 0) + 1
+                        stats["has_reading_dotted_checks"] = stats.get("has_reading_dotted_checks", 0) + 1
+                        if hx.has_reading(name) != (latest is not None):
+                            V("has_reading", f"C20|Hexital.has_reading|dotted-{'falsy' if latest is not None else 'none'}",
+                              f"Hexital.has_reading({name!r})={hx.has_reading(name)} but the field's latest value is {short(latest, 100)} (reading {short(direct[-1], 120)})")
                     hp = hx.prev_reading(name)
                     pv = want[-2] if L >= 2 else None
                     if not same(hp, pv):
